@@ -5,6 +5,7 @@ pub mod c03;
 pub mod c04;
 pub mod c05;
 pub mod c16;
+pub mod c18;
 pub mod c20;
 pub mod evalutil;
 
@@ -16,6 +17,7 @@ pub fn lookup(id: &str) -> Option<&'static dyn Prop> {
         "C04" => &c04::C04,
         "C05" => &c05::C05,
         "C16" => &c16::C16,
+        "C18" => &c18::C18,
         "C20" => &c20::C20,
         _ => return None,
     })
